@@ -25,6 +25,10 @@ def also_counts_for(f):
         out.update({"C15", "C16"})
     if name in ("CapacityNeverOverstated", "RequestThatFitsSucceedsWhateverTheLimit", "ReportedCapacityServableWithoutNewMemory"):
         out.update({"C06", "C07", "C18"})
+    # Box "owns its value like std's Box ... without dropping or duplicating anything": the drop-ledger formulas
+    # on Box operations decide C17 as much as C15
+    if f.get("source") == "CollTrace" and p in ("C15", "C16") and (str(op).startswith("box_") or op in ("into_boxed_slice", "zbox_try_array")):
+        out.add("C17")
     if name == "LiveBlocksIntact":
         out.update({"C01", "C12"} if op in ALLOCATOR_API_OPS else {"C01"})
     return out
